@@ -155,4 +155,31 @@ theorem list_collapsed_witness :
     .ok (.enumeration (some 1) "On".toList "E".toList) := by
   simp [toEnumValue, enumInt, lookup]
 
+/-- **only the definition property counts**: a further HasProperty reference from the data type to a
+    node that is named neither EnumStrings nor EnumValues does not change the definition read for it,
+    whatever that node holds and wherever the reference stands -/
+theorem enumDef_other_property (nodes : List ENode) (pre post : List (Nat × Nat × Nat)) (hp dt p : Nat)
+    (hname : ∀ n ∈ nodes, n.id = p → n.browse ≠ kEnumStrings ∧ n.browse ≠ kEnumValues) :
+    enumDef nodes (pre ++ (dt, p, hp) :: post) hp dt = enumDef nodes (pre ++ post) hp dt := by
+  unfold enumDef
+  cases hfd : nodes.find? (fun n => n.id = dt) with
+  | none => rfl
+  | some dtn =>
+    simp only [List.filter_append, List.map_append, List.filterMap_append]
+    have hskip : (List.filterMap (fun q => (List.find? (fun n => decide (n.id = q)) nodes).bind
+          (fun n => if n.browse = kEnumStrings ∨ n.browse = kEnumValues then n.value else none))
+          (List.map (fun r => r.2.1) (List.filter (fun r => decide (r.1 = dt ∧ r.2.2 = hp)) ((dt, p, hp) :: post)))) =
+        (List.filterMap (fun q => (List.find? (fun n => decide (n.id = q)) nodes).bind
+          (fun n => if n.browse = kEnumStrings ∨ n.browse = kEnumValues then n.value else none))
+          (List.map (fun r => r.2.1) (List.filter (fun r => decide (r.1 = dt ∧ r.2.2 = hp)) post))) := by
+      simp only [List.filter_cons, and_self, decide_true, if_true, List.map_cons, List.filterMap_cons]
+      cases hf : List.find? (fun n => decide (n.id = p)) nodes with
+      | none => simp
+      | some n =>
+        have hm := List.mem_of_find?_eq_some hf
+        have hid : n.id = p := by simpa using List.find?_some hf
+        obtain ⟨h1, h2⟩ := hname n hm hid
+        simp [h1, h2]
+    rw [hskip]
+
 end Opcua.C17
